@@ -49,6 +49,12 @@ func (enc *Encoder) setErr(err error) {
 	}
 }
 
+// Err returns the first error the encoder has run into, if any. Once an error
+// has occurred nothing more is written.
+func (enc *Encoder) Err() error {
+	return enc.err
+}
+
 func (enc *Encoder) writeString(s string) *Encoder {
 	if enc.err != nil {
 		return enc
